@@ -45,6 +45,17 @@ let check (case : Sexp.t) : unit =
               let ok3 = frame_check ~id f h in
               let ok4 = points_check ~id ~tag:"evaluate" th pts in
               if not (ptree_eq th spec) then bump "mirror_mismatch" else bump "mirror_agree";
+              (* arena-level model (Pwl/ArenaCompose.v: update_node / add_child_node on the dumped arena, keys from the
+                 append allocator): it must return Ok and abstract to the lifted tree; the frame theorem C02_frame is
+                 about this model *)
+              (let af = arena_of f in
+               let root = nat_of_int (match f.root with Some r -> r | None -> 0) in
+               match arena_compose next_key (nat_of_int (int_of_string k)) comp_schema tg af with
+               | Some a' ->
+                 (match abs_at (nat_of_int (List.length a' + 1)) a' root with
+                  | Some t' when ptree_eq t' spec -> bump "arena_model_agree"
+                  | _ -> bump "arena_model_mismatch"; result id "MIRROR" "arena-model" "abs of the arena-level model run differs from the lifted tree")
+               | None -> bump "arena_model_panic"; result id "MIRROR" "arena-model" "the arena-level model run does not return Ok");
               if ok1 && ok2 && ok3 && ok4 then result id "OK" "compose" ""
           end)
      | _ -> result id "ERR" "abs" "operand arena is not a tree")
